@@ -5,12 +5,19 @@ WORLDS = {
 }
 
 RWRING_COMPONENTS = {
-    "real": ["pkg/receive.NewMultiHashring (multiHashring, simpleHashring, ketamaHashring, shuffleShardHashring, tenantSet matching)",
+    "real": ["pkg/receive.NewMultiHashring (multiHashring + tenant matching, simpleHashring, ketamaHashring, shuffleShardHashring)",
              "pkg/store/labelpb.HashWithPrefix", "hashicorp/golang-lru cache of shuffle-shard sub-rings"],
-    "stub": ["receiver nodes are reduced to 'load the hashring configuration, answer placement lookups' (no HTTP handler, TSDB or peer transport)",
-             "hashring file watcher (each node is handed its own permutation of the parsed configuration)",
+    "stub": ["receiver nodes are reduced to 'load the hashring configuration, answer placement lookups' (no HTTP handler, TSDB, peer transport)",
+             "hashring file watcher/JSON parsing (every node is handed its own permutation of the already parsed configuration)",
              "clock (testing/synctest fake clock; nothing in this world depends on time)"],
 }
+
+COMMON_ASSUMPTIONS = [
+    "endpoint addresses within one hashring entry are distinct; endpoints either all carry an availability zone or none does (C19 also mixes zoned and zone-less endpoints)",
+    "a node's lookups and reloads are atomic steps of the simulated schedule (thanos' hashring code has no seam to park inside); "
+    "only the first lookup of each C27 task runs truly concurrently",
+]
+
 
 def _p(design, quick, thorough, rule, text, assumptions, note):
     return {
@@ -23,12 +30,70 @@ def _p(design, quick, thorough, rule, text, assumptions, note):
         "thorough": thorough,
         "rule": rule,
         "components": RWRING_COMPONENTS,
-        "assumptions": assumptions,
+        "assumptions": COMMON_ASSUMPTIONS + assumptions,
         "text": text,
         "note": note,
+        # a violating run is shrunk by the worker that found it; keep that bounded so the quick tier stays inside its wall budget
+        "env": {"VERIF_SHRINK_SECONDS": "10"},
     }
 
+
 PROPS = {
-    "C19": _p("DESIGN.md §6 C19", {"runs": 3000, "seconds": 45}, {"runs": 60000, "seconds": 540},
-              "one evaluation = one generated configuration", "sampled", [], ""),
+    "C18": _p(
+        "DESIGN.md §6 C18",
+        {"runs": 12000, "seconds": 35}, {"runs": 200000, "seconds": 480},
+        "one evaluation = one generated cluster: 1..12 endpoints (= simulated nodes) in 0..4 unbalanced zones, hashmod or ketama, RF 1..min(5,n), "
+        "every node with its own permutation of the endpoint list, 2 tenants x 4..12 series, 1..3 client tasks entering writes at "
+        "scheduler-chosen nodes, in a third of the runs one endpoint added and rolled out node by node; afterwards every node is asked for "
+        "every (tenant, series). distinct = distinct event-log hash; non-trivial = some lookup returned >= 2 replicas.",
+        "Configurations, permutations, series and roll-out interleavings are sampled from the seed; within a run the comparison over "
+        "(node, tenant, series) is exhaustive.",
+        ["zone balance is only demanded when an assignment with per-zone counts differing by <= 1 exists for the zone sizes (own model)",
+         "layouts that cannot be balanced are kept in a quarter of the cases; a construction that then spins is C19's subject and only counted here"],
+        "Oracles are relational (distinctness, agreement between nodes, balance bound); ketama is not re-implemented."),
+    "C19": _p(
+        "DESIGN.md §6 C19, §8.1",
+        {"runs": 12000, "seconds": 35}, {"runs": 200000, "seconds": 480},
+        "one evaluation = one generated configuration (1..12 endpoints, 0..4 unbalanced zones, RF 1..n (rarely n+1), ketama/hashmod via flag or "
+        "per-ring, shuffle sharding in a quarter of the ketama runs, one endpoint added in half of the runs) loaded by 1..4 nodes at start and "
+        "again at the roll-out, plus lookups for 2 tenants x 2 series at every node. distinct = distinct event-log hash.",
+        "Zone layouts x RF are sampled from the seed (1..12 endpoints over <=4 zones is a small space: the thorough tier covers it many times).",
+        ["'never terminates' is decided exactly: the Progress hook in calculateSectionReplicas reports len(replicas) per iteration; more than "
+         "(rings+1) x ring-size consecutive iterations without a new replica contain a full lap over the ring inside one section, after which "
+         "no input of the loop can change"],
+        "Needs the one-line verifhook.Progress call in pkg/receive/hashring.go (no-op without the verif tag)."),
+    "C20": _p(
+        "DESIGN.md §6 C20",
+        {"runs": 10000, "seconds": 35}, {"runs": 160000, "seconds": 480},
+        "one evaluation = one ketama cluster without zones (1..12 endpoints, RF 1..min(6,n), optionally a tenant-specific ring in front), one "
+        "endpoint with a generated name added at a generated position and rolled out node by node over 1..6 nodes while 1..3 clients write; all "
+        "(old-config observation, new-config observation) pairs of every (tenant, series) over all nodes are compared. non-trivial = at least "
+        "one series moved onto the new endpoint.",
+        "Ring sizes, names, RF, series and roll-out order are sampled; comparison of observed pairs is exhaustive within a run.",
+        [],
+        "Set comparison of replicas (the property speaks of the replica set, not of replica numbering)."),
+    "C21": _p(
+        "DESIGN.md §6 C21",
+        {"runs": 5000, "seconds": 40}, {"runs": 80000, "seconds": 540},
+        "one evaluation = one ketama hashring with shuffle sharding (2..12 endpoints, 0..4 unbalanced zones, RF 1..3, shard size 1..n, zone "
+        "awareness on/off, 0..2 overrides exact(explicit or default matcher type)/glob) loaded by 1..3 nodes with their own endpoint order and "
+        "sub-ring cache size 1, 2 or 64; clients interleave 2..5 tenants; afterwards a sweep over nodes x tenants x series. The tenant's sub-ring is "
+        "read through the same cached lookup GetN uses (verif shim). non-trivial = at least one tenant's shard was returned and checked.",
+        "Layouts, sizes, overrides and tenant interleavings are sampled from the seed.",
+        ["nodes per zone = ceil(shard size / zones), the documented rule (docs/components/receive.md: shard_size 2 over 3 zones gives 3 nodes)",
+         "overrides are generated so that at most one matches any tenant of the run (precedence among overrides is not part of the property)",
+         "an error is accepted when the shard is not realisable (a zone smaller than the per-zone count, shard smaller than RF); with zone awareness "
+         "disabled on zoned endpoints the sub-ring may be unbalanceable for RF (C19), such lookups are skipped"],
+        "Needs pkg/receive/verif_shim_ring.go to read the tenant's sub-ring."),
+    "C27": _p(
+        "DESIGN.md §6 C27, §6b",
+        {"runs": 60000, "seconds": 25}, {"runs": 1000000, "seconds": 420},
+        "one evaluation = one configuration list (1..3 entries naming tenants exactly or by glob, then 0..2 default entries; disjoint endpoints per "
+        "entry so the answer names the entry) loaded by 1..2 nodes; 2..4 tasks with 2..6 lookups each over a pool of 10 tenant names; the first lookup "
+        "of every task is issued before its first park (concurrent on the cold cache, usually for the same tenant), later ones are interleaved by the "
+        "scheduler. distinct = distinct event-log hash.",
+        "Configurations, tenants and interleavings are sampled from the seed.",
+        ["default entries are placed after all entries that name tenants (DESIGN §6b)",
+         "glob patterns are well-formed (*, ?, [..] without negation/escapes); tenant names contain no path separator (thanos rejects those)"],
+        "Reference is an independent first-match function with its own glob matcher."),
 }
